@@ -656,3 +656,32 @@ def c01_14(ctx, r):
     from .c17 import c17_4
 
     c17_4(ctx, r)
+
+
+@rule(P, "C01.15", "T8", "a later submitter round never runs the configuration locally: only the initial submission may pass force_local", min_obligations=3)
+def c01_15(ctx, r):
+    """JobSubmitter.submit_jobs(cluster, force_local=...) with force_local true runs every job of config.json on the calling
+    machine, whatever their states.  Only run_submit_jobs (the first submission, `--local`) may decide that; the rounds started
+    by try-submit-jobs / resubmit-jobs must take the default."""
+    sj = ctx.fn("JobSubmitter.submit_jobs", "C01.15")
+    n = 0
+    for s in ctx.callers_of(sj):
+        if not s.calls_short(ctx.ix, "JobSubmitter.submit_jobs"):
+            continue
+        n += 1
+        a = ctx.arg_for(s, sj, "force_local")
+        if s.fn.short == "JobSubmitter.run_submit_jobs":
+            r.ok("run_submit_jobs decides local mode")
+            continue
+        r.check(a is None or (isinstance(a, ast.Constant) and a.value is False), f"{s.fn.short}: submit_jobs takes the default force_local", key_of(s.fn, "round forced into local mode"), s.loc,
+                f"`{ctx.src(s.node)}` passes `{ctx.src(a) if a is not None else None}` as force_local: when it is true the round ignores the job states and starts every job of the configuration on this machine - "
+                "jobs already placed in batches are started a second time", "never starts a job's command more than once")
+    if n < 3:
+        raise AnalysisError("C01.15", f"only {n} callers of JobSubmitter.submit_jobs found")
+
+
+@rule(P, "C01.16", "T9", "the node-side batch id is the submitter's: the pattern matches exactly the file name written", min_obligations=5)
+def c01_16(ctx, r):
+    from .c07 import c07_8
+
+    c07_8(ctx, r)
